@@ -44,6 +44,18 @@ struct Owner {
 	int value() const { return p ? *p : -1; }
 };
 
+// trivially copyable payloads; two DIFFERENT types for each size (isType must tell them apart)
+template <int N, int Tag>
+struct Pod {
+	unsigned char b[N];
+	explicit Pod(int v) { for(int i = 0; i < N; ++i) b[i] = (unsigned char)(v + i); }
+	int value() const {
+		for(int i = 1; i < N; ++i) if(b[i] != (unsigned char)(b[0] + i)) return -2;
+		return b[0];
+	}
+};
+static_assert(std::is_trivially_copyable<Pod<8, 0>>::value && sizeof(Pod<24, 1>) == 24, "Pod<N,Tag> is a trivially copyable N byte type");
+
 using Any = eventpp::AnyData<VH_CAP>;
 
 // type table: tag -> (constructor, reader, isType)
@@ -69,9 +81,12 @@ static std::vector<TypeOps> types() {
 		opsFor<Blob<1>>(), opsFor<Blob<2>>(), opsFor<Blob<7>>(), opsFor<Blob<8>>(), opsFor<Blob<15>>(), opsFor<Blob<16>>(),
 		opsFor<Blob<17>>(), opsFor<Blob<23>>(), opsFor<Blob<24>>(), opsFor<Blob<25>>(), opsFor<Blob<31>>(), opsFor<Blob<32>>(),
 		opsFor<Blob<33>>(), opsFor<Blob<63>>(), opsFor<Blob<64>>(), opsFor<Blob<65>>(), opsFor<Blob<80>>(),
-		opsFor<Owner<16>>(), opsFor<Owner<24>>(), opsFor<Owner<40>>(), opsFor<Owner<72>>()
+		opsFor<Owner<16>>(), opsFor<Owner<24>>(), opsFor<Owner<40>>(), opsFor<Owner<72>>(),
+		// from here on: trivially copyable types (not ledger-counted by themselves, see podHeld)
+		opsFor<Pod<8, 0>>(), opsFor<Pod<8, 1>>(), opsFor<Pod<16, 0>>(), opsFor<Pod<16, 1>>(), opsFor<Pod<24, 0>>(), opsFor<Pod<24, 1>>()
 	};
 }
+static const int FIRST_POD = 21;
 
 struct SlotRec { Any * any; int ty; const void * addr; bool movedFrom; };
 
@@ -150,7 +165,13 @@ int main(int argc, char ** argv) {
 		}
 		else if(op == "qproc") { q->process(); std::cout << "ok\n"; }
 		else { std::cout << "bad-op\n"; continue; }
-		std::cout << "live " << g_live << "\n";
+		// Pod objects have no counting constructors: every AnyData that was given one (slot, husk or queued) holds one
+		// (a moved-from AnyData still holds a - moved-from - object only if the object is stored inline)
+		const int effCap = (int)(VH_CAP > sizeof(eventpp::anydata_internal_::LargeData) ? VH_CAP : sizeof(eventpp::anydata_internal_::LargeData));
+		long podHeld = 0;
+		for(auto & sl : slots) if(sl.second.ty >= FIRST_POD && (!sl.second.movedFrom || T[sl.second.ty].size <= effCap)) ++podHeld;
+		for(int ty : qtypes) if(ty >= FIRST_POD) ++podHeld;
+		std::cout << "live " << (g_live + podHeld) << "\n";
 	}
 	reset();
 	q.reset();
